@@ -466,7 +466,7 @@ func init() {
 }
 
 // functions of BufferPoolManager that are entered with b.mutex held (every call site is checked)
-var callerHoldsBPM = map[string]bool{"getFrameID": true, "PrintReplacerInternalState": true}
+var callerHoldsBPM = map[string]bool{"getFrameID": true, "PrintReplacerInternalState": true, "ReturnBuffer": true}
 
 func uniq(s []string) []string {
 	seen := map[string]bool{}
